@@ -111,6 +111,8 @@ type WConfig struct {
 
 // WDerive describes modifications applied to a built-in spec (C02/C09/C10/C11 families); see specs_test.go.
 type WDerive struct {
+	tokBacking    []byte // (not serialised) buffer whose head is the spec's ClientTokenPrefix
+	tokPrefixLen  int
 	Builder       string   `json:"builder,omitempty"`
 	P             []int64  `json:"p,omitempty"`
 	InitPN        int64    `json:"init_pn,omitempty"`
